@@ -28,15 +28,15 @@ Theorem C06_exit_matches_json : forall cmd vs z,
 Proof. exact run_consistent. Qed.
 Print Assumptions C06_exit_matches_json.
 
-(* 2. Runs that cannot be performed exit 2 (every class, every command); an empty config file is not such a run. *)
+(* 2. Runs that cannot be performed exit 2 (every class, every command); an empty config file is not such a run
+      (for EVERY vector since af4580b: the guard `yaml.safe_load(f) or {}` is read from the source). *)
 Theorem C06_usage_exit_two : forall q cmd c,
-  q_group_missing_config_ignored q = false -> q_dry_empty_config_crashes q = false ->
-  usage_outcome q cmd c = spec_outcome c.
+  q_group_missing_config_ignored q = false -> usage_outcome q cmd c = spec_outcome c.
 Proof. exact usage_exit_two. Qed.
 Print Assumptions C06_usage_exit_two.
 
 Theorem C06_usage_exit_two_partial : forall q cmd c,
-  c <> UGroupMissingConfig -> (c = UEmptyConfig -> cmd <> "dry") -> usage_outcome q cmd c = spec_outcome c.
+  c <> UGroupMissingConfig -> usage_outcome q cmd c = spec_outcome c.
 Proof. exact usage_exit_two_partial. Qed.
 Print Assumptions C06_usage_exit_two_partial.
 
@@ -52,23 +52,17 @@ Theorem C06_json_total : forall vs cs t,
 Proof. exact json_total_is_length. Qed.
 Print Assumptions C06_json_total.
 
-(* 4. SARIF: same list as JSON; startColumn = column + 1. *)
+(* 4. SARIF: same list as JSON; startColumn = column + 1.  For EVERY vector, the faithful one included (since d9a5951 the
+      templates found in the source sanitise path and message themselves). *)
 Theorem C06_sarif_roundtrip : forall q ver vs,
-  q_sarif_unsanitized q = false -> decode_sarif (render_sarif q ver vs) = Some (map san_core vs).
+  decode_sarif (render_sarif q ver vs) = Some (map san_core vs).
 Proof. exact sarif_roundtrip_exact. Qed.
 Print Assumptions C06_sarif_roundtrip.
 
 Theorem C06_json_sarif_agree : forall q ver vs,
-  q_sarif_unsanitized q = false ->
   decode_sarif (render_sarif q ver vs) = option_map fst (decode_json (render_json vs)).
 Proof. exact json_sarif_agree. Qed.
 Print Assumptions C06_json_sarif_agree.
-
-(* the code as it is (any q): the same on paths / messages without undecodable bytes *)
-Theorem C06_json_sarif_agree_partial : forall q ver vs,
-  Forall viol_clean vs -> decode_sarif (render_sarif q ver vs) = option_map fst (decode_json (render_json vs)).
-Proof. exact json_sarif_agree_clean_partial. Qed.
-Print Assumptions C06_json_sarif_agree_partial.
 
 (* 5. SARIF well-formedness: version / schema of 2.1.0, every position 1-based, every ruleId declared in
       tool.driver.rules, no rule declared twice, for every list of violations with 1-based lines and 0-based columns. *)
@@ -81,9 +75,10 @@ Theorem C06_sarif_rules_declared_once : forall q ver vs,
 Proof. exact sarif_rules_declared_once. Qed.
 Print Assumptions C06_sarif_rules_declared_once.
 
-(* including the violations the syntax-error builders construct (lineno / offset as CPython reports them, or absent) *)
+(* including the violations the syntax-error builders construct (lineno / offset as CPython reports them, or absent);
+   for EVERY vector since f9c24d2 (the builders' default line, read from the source, is 1) *)
 Theorem C06_sarif_wellformed_run : forall q ver srcs,
-  q_syntax_line_zero q = false -> Forall src_ok srcs -> sarif_wf (render_sarif q ver (map (realize q) srcs)) = true.
+  Forall src_ok srcs -> sarif_wf (render_sarif q ver (map (realize q) srcs)) = true.
 Proof. exact sarif_wellformed_run. Qed.
 Print Assumptions C06_sarif_wellformed_run.
 
@@ -105,7 +100,7 @@ Print Assumptions C06_text_roundtrip_partial.
 
 (* 7. One run, three renderings, one list. *)
 Theorem C06_renderings_agree : forall q ver vs,
-  q_sarif_unsanitized q = false -> q_text_omit_zero q = false -> q_text_raw_newline q = false ->
+  q_text_omit_zero q = false -> q_text_raw_newline q = false ->
   forallb (fun v => rule_ok (v_rule v)) vs = true ->
   decode_json (render_json vs) = Some (map san_core vs, Z.of_nat (List.length (map san_core vs)))
   /\ decode_sarif (render_sarif q ver vs) = Some (map san_core vs)
@@ -115,7 +110,7 @@ Print Assumptions C06_renderings_agree.
 
 Theorem C06_renderings_agree_partial : forall q ver vs,
   q_text_omit_zero q = true -> q_text_raw_newline q = true ->
-  Forall viol_clean vs -> forallb (text_ok q) vs = true ->
+  forallb (text_ok q) vs = true ->
   decode_json (render_json vs) = Some (map san_core vs, Z.of_nat (List.length (map san_core vs)))
   /\ decode_sarif (render_sarif q ver vs) = Some (map san_core vs)
   /\ parse_text q (text_output q vs) = Some (map san_core vs).
@@ -145,3 +140,17 @@ Example C06_nonvacuous :
   /\ option_map (@List.length _) (parse_text output_actual (text_output output_actual ex_vs)) = Some 3%nat
   /\ sarif_rule_ids (render_sarif output_actual "0" ex_vs) = Some ["nesting.excessive-depth"; "dry.duplicate-code"].
 Proof. vm_compute. repeat split; reflexivity. Qed.
+
+(* regressions: the witnesses of the three repaired findings (kept in corpus/C06) now meet the specification under the claimed vector *)
+Definition w_surrogate : list viol :=
+  [Build_viol "file-placement" (String (ascii_of_nat 99) (String (ascii_of_nat 97) (String (ascii_of_nat 102) (String (ascii_of_nat 233) ".txt")))) 1 0 "not here"].
+Example C06_sarif_unsanitized_fixed :
+  decode_sarif (render_sarif output_actual "0" w_surrogate) = option_map fst (decode_json (render_json w_surrogate)).
+Proof. vm_compute. reflexivity. Qed.
+
+Definition w_nul : list vsrc := [VSyntax "nesting" "nesting.excessive-depth" "nul.py" None None "source code string cannot contain null bytes"].
+Example C06_syntax_line_zero_fixed : sarif_wf (render_sarif output_actual "0" (map (realize output_actual) w_nul)) = true.
+Proof. vm_compute. reflexivity. Qed.
+
+Example C06_dry_empty_config_fixed : usage_outcome output_actual "dry" UEmptyConfig = spec_outcome UEmptyConfig.
+Proof. vm_compute. reflexivity. Qed.
